@@ -127,6 +127,18 @@ alias Num = Int32
      {'route_whitelist': {'n4': ['*'], 'n2': ['r2']}, 'datatype_whitelist': {'n0': ['S0']}}),
 ]
 
+# Siblings: specs with the SAME namespace, type, alias, annotation and route names as a rich spec but different content (imports,
+# owners of names, field types, alias targets); generated first in the 'after-sibling' history.
+REACH = ('alias-reach', [('cfg.stone', CFG),
+                         ('files.stone', 'namespace files\nimport users\nstruct F\n    "doc :type:`F` :type:`users.Holder`"\n    t users.ThingAlias\n    l List(users.ThingAlias)?\nroute get(F, Void, Void)\n    ":type:`F`"\n'),
+                         ('users.stone', 'namespace users\nimport common\nalias ThingAlias = common.Thing\nstruct Holder\n    h ThingAlias\n'),
+                         ('common.stone', 'namespace common\nstruct Thing\n    "doc :type:`Thing`"\n    x Int32\nunion Kind\n    a\n    b\n')], None)
+REACH_SIBLING = [('cfg.stone', CFG),
+                 ('files.stone', 'namespace files\nimport users\nimport common\nstruct F\n    "doc :type:`F` :type:`users.Holder`"\n    t users.ThingAlias\n    c common.Thing\n    k common.Kind = a\nstruct Thing\n    y String\nroute get(F, Thing, Void)\n    ":type:`F`"\n'),
+                 ('users.stone', 'namespace users\nalias ThingAlias = String\nstruct Holder\n    h ThingAlias\n    i Int32 = 1\n'),
+                 ('common.stone', 'namespace common\nimport users\nstruct Thing\n    "doc :type:`Thing`"\n    x users.Holder?\nunion Kind\n    a\n    b\n    c Thing\n')]
+
+
 IDENT_POOL = {
     'callers': ['alpha', 'beta', 'gamma', 'delta'],
     'namespaces': ['files', 'common', 'annots', 'n0', 'n1', 'n2', 'n3', 'n4', 'na', 'nb'],
@@ -183,10 +195,10 @@ OPTION_SETS = {
 }
 
 
-def run_job(specs, seed, history, whitelist, unrelated, keep_text=False):
+def run_job(specs, seed, history, whitelist, unrelated, keep_text=False, sibling=None):
     d = explore.fresh_dir('c12')
     try:
-        job = {'specs': specs, 'history': history, 'outdir': d, 'whitelist': whitelist, 'unrelated': unrelated, 'keep_text': keep_text,
+        job = {'specs': specs, 'history': history, 'outdir': d, 'whitelist': whitelist, 'unrelated': unrelated, 'keep_text': keep_text, 'sibling': sibling,
                'args': OPTION_SETS['args'], 'pre_args': OPTION_SETS['pre_args']}
         env = dict(os.environ, PYTHONHASHSEED=str(seed), PYTHONDONTWRITEBYTECODE='1')
         p = subprocess.run([sys.executable, WORKER], input=json.dumps(job), capture_output=True, text=True, env=env, timeout=300)
@@ -216,7 +228,8 @@ def first_diff(ref, got):
 
 
 def task(item):
-    name, specs, whitelist, seeds, histories = item
+    name, specs, whitelist, seeds, histories = item[:5]
+    sibling = item[5] if len(item) > 5 else None
     oc = collections.Counter()
     out_v = []
     n = 0
@@ -236,7 +249,9 @@ def task(item):
                 if seed == 0 and hist == 'fresh':
                     continue
                 n += 1
-                got = run_job(specs, seed, hist, wl, UNRELATED)
+                if hist == 'after-sibling' and sibling is None:
+                    continue
+                got = run_job(specs, seed, hist, wl, UNRELATED, sibling=sibling)
                 if 'error' in got:
                     raise explore.InternalError('C12 worker failed: ' + got['error'])
                 for ri, run_ in enumerate(got['runs']):
@@ -250,7 +265,7 @@ def task(item):
                     detail = ''
                     try:
                         a = run_job(specs, 0, 'fresh', wl, UNRELATED, keep_text=True)['text'][d[0]][d[1]].split('\n')
-                        b = run_job(specs, seed, hist, wl, UNRELATED, keep_text=True)['text'][d[0]][d[1]].split('\n')
+                        b = run_job(specs, seed, hist, wl, UNRELATED, keep_text=True, sibling=sibling)['text'][d[0]][d[1]].split('\n')
                         for x, y in zip(a, b):
                             if x != y:
                                 detail = '%r vs %r' % (x[:200], y[:200])
@@ -259,7 +274,7 @@ def task(item):
                         pass
                     out_v.append(viol('bytes:%s:%s%s' % (d[0], cause.split(':')[0], ':whitelist' if wl else ''),
                                       'output of %s differs (%s) for spec %s, seed %d, history %s%s, run %d: %s' % (d[0], d[1], name, seed, hist, ', whitelist' if wl else '', ri, detail),
-                                      {'specs': specs, 'seed': seed, 'history': hist, 'whitelist': wl, 'backend': d[0], 'file': d[1]}, detail))
+                                      {'specs': specs, 'seed': seed, 'history': hist, 'whitelist': wl, 'backend': d[0], 'file': d[1], 'sibling': sibling}, detail))
     return {'outcome': oc, 'viol': out_v, 'n': max(n, 1), 'transitions': n}
 
 
@@ -277,9 +292,13 @@ def run(tier, seed):
     items = []
     for name, specs, wl in RICH:
         items.append((name, specs, wl, all_seeds, ['fresh', 'after-unrelated', 'after-namesake', 'after-other-options', 'isolated', 'twice']))
+    # a pair of specs that share every name but differ in imports, owners and targets: each is generated after the other
+    items.append((REACH[0], REACH[1], None, all_seeds[:3], ['fresh', 'after-sibling', 'after-namesake', 'twice'], REACH_SIBLING))
+    items.append((REACH[0] + '-sibling', REACH_SIBLING, None, all_seeds[:3], ['fresh', 'after-sibling', 'after-namesake', 'twice'], REACH[1]))
     budget = 60 if tier == 'quick' else 400
     seen = set()
     nm = 0
+    prev_specs = {}
     for fams in [('F13-annotations', 'F3-inherit'), ('F13-annotations', 'F5-unions'), ('F13-annotations', 'F1-imports'), ('F13-annotations', 'F12-routes'),
                  ('F1-imports', 'F12-routes'), ('F13-annotations', 'F14-patches')]:
         p = profiles.make_profile(fams)
@@ -290,9 +309,12 @@ def run(tier, seed):
                 continue
             seen.add(s)
             specs = render.render(s) + [('cfg.stone', CFG)]
-            items.append(('%s:%s' % (p.name, '/'.join(tr)), specs, None, all_seeds[:4] if tier == 'quick' else all_seeds, ['fresh'] if tier == 'quick' else ['fresh', 'twice']))
+            sib = prev_specs.get(p.name)
+            prev_specs[p.name] = specs
+            items.append(('%s:%s' % (p.name, '/'.join(tr)), specs, None, all_seeds[:4] if tier == 'quick' else all_seeds,
+                          (['fresh'] if tier == 'quick' else ['fresh', 'twice']) + (['after-sibling'] if sib else []), sib))
             nm += 1
-    r.bounds.update({'rich_specs': len(RICH), 'machine_models': nm, 'backends': list(impl.BACKEND_RUNS), 'histories': ['fresh', 'after-unrelated', 'after-namesake (the same spec under other namespace names first)', 'after-other-options (same spec, other backend options first)', 'isolated (each backend on its own freshly compiled Api instead of all backends on one Api)', 'twice (two output directories)'], 'option_sets': OPTION_SETS})
+    r.bounds.update({'rich_specs': len(RICH), 'machine_models': nm, 'backends': list(impl.BACKEND_RUNS), 'histories': ['fresh', 'after-unrelated', 'after-namesake (the same spec under other namespace names first)', 'after-other-options (same spec, other backend options first)', 'isolated (each backend on its own freshly compiled Api instead of all backends on one Api)', 'twice (two output directories)', 'after-sibling (another spec with the same namespace / type names but different imports, owners and targets first; machine models: the previous model of the same profile)'], 'option_sets': OPTION_SETS})
     r.sample({'spec': RICH[0][0], 'files': [p for p, _ in RICH[0][1]], 'whitelist': RICH[0][2], 'seeds': all_seeds})
     r.run_tasks(task, items, budget=1800, chunksize=1)
     r.assumptions = ['object addresses are not controlled; the history dimension perturbs them', 'every run is a separate interpreter with its own PYTHONHASHSEED']
@@ -303,7 +325,7 @@ def run(tier, seed):
 def replay(rep):
     specs = [tuple(x) for x in rep['inputs']['specs']]
     a = run_job(specs, 0, 'fresh', rep['inputs'].get('whitelist'), UNRELATED)
-    b = run_job(specs, rep['inputs']['seed'], rep['inputs']['history'], rep['inputs'].get('whitelist'), UNRELATED)
+    b = run_job(specs, rep['inputs']['seed'], rep['inputs']['history'], rep['inputs'].get('whitelist'), UNRELATED, sibling=rep['inputs'].get('sibling'))
     for run_ in b['runs']:
         if first_diff(a['runs'][0], run_):
             print('VIOLATION property=%s replay=replayed' % PROP)
